@@ -15,17 +15,28 @@ RULE = ('(1) every layout of <= 5 lines (thorough <= 7; at 7 lines the unclaim/c
         'claim restores the census, and the documented rule evaluated by an independent line-based function on the layouts '
         'where it singles out one owner; (2) random claim/unclaim/auto-claim sequences (explicit comment sets incl. foreign '
         'and already-owned comments) with the census oracle after every call. Every attribution primitive executed on the '
-        'way is replayed on the Lean model (lock-step, driver prefix M). '
+        'way is replayed on the Lean model (lock-step, driver prefix M). (3) Every auto_claim_comments() of (1) on the '
+        'document parsed without attribution, and every auto_claim_comments() of (2) (any node, slots partly filled), is '
+        'replayed as a WHOLE on the Lean tree walk (driver `M walk`): store + comment-relevant tree before, the real walk, then '
+        'store order, claimed flags, every leading/trailing slot, the entries of every repeated field, first/last token of every '
+        'block-commentable model and the ORDER of the primitive calls are diffed; the model also reports whether a second walk '
+        'changes anything and the layout hypothesis of walk_all_claimed_partial, which the harness evaluates independently '
+        'on the real state right before the final claim of the File. '
         'distinct non-trivial = distinct layouts with a comment / distinct (call, outcome, owners before, owners after)')
 ASSUMPTIONS = ['ownership slots are read through harness/intro.py (private fields _leading_comment/_trailing_comment, Repeated.items)',
                'the rule oracle judges a comment block only where docs/special/comments.md singles out one owner: not when the '
                'block touches another comment block on the deciding side, not for a comment after the last meta line of a '
                'posting (posting and meta item both end there; the code gives it to the posting)',
                'attribution primitives are traced by wrapping module-level functions/methods of the real package at run time']
-TRUSTED_EXTRA = ['the tree structure that decides WHICH claim calls auto_claim_comments issues is not modelled in Lean: the '
-                 'theorems quantify over all call sequences; that default parsing leaves nothing unowned and follows the '
-                 'documented order is evaluated on the real code (exhaustive small layouts), not proved']
-LEVEL_NOTE = 'own_inv, claim_stops_at_claimed, unclaim_claim_restores proved on the model; auto_idempotent_partial and the rule are tied by exhaustive layouts'
+TRUSTED_EXTRA = ['the tree walk of auto_claim_comments is modelled (Model/AutoClaim.lean) and tied call by call to the real walk; '
+                 'walk_all_claimed_partial / walk_idempotent_partial are proved for a File root under a layout hypothesis on the '
+                 'state reached after the directives` own walks (no unclaimed comment left INSIDE a directive; evaluated on every '
+                 'explored document by the model and on the real objects) and, for idempotence, under the hypothesis that the '
+                 'second run is not refused by the model (reported per document); that the documented order is followed is '
+                 'evaluated on the real code (exhaustive small layouts), not proved']
+LEVEL_NOTE = ('own_inv, claim_stops_at_claimed, unclaim_claim_restores, walk_own_inv, walk_visible, walk_keeps_owner, '
+              'walk_leading_of_model_below, walk_trailing_of_model_above proved on the model; '
+              'walk_all_claimed_partial, walk_idempotent_partial under a checked layout hypothesis; the rule is tied by exhaustive layouts')
 
 ALPHABET = 'DTPMCIB'
 
@@ -64,8 +75,10 @@ def _has_posting(lay, t):
     return False
 
 
-def layout_checks(text, lay=None, counts=None, cycles=True):
-    """All part-(1) oracles on one document.  Returns [(signature, description)]."""
+def layout_checks(text, lay=None, counts=None, cycles=True, walk=None):
+    """All part-(1) oracles on one document.  Returns [(signature, description)].
+    `walk` (a commentsx.WalkRecorder): the auto_claim_comments() of the document parsed without attribution is also
+    recorded for the lock-step with the Lean tree walk."""
     bad = []
     try:
         f1 = P().parse(text, models.File)
@@ -112,7 +125,10 @@ def layout_checks(text, lay=None, counts=None, cycles=True):
     f0 = P().parse(text, models.File, auto_claim_comments=False)
     for s, d in commentsx.check_census(f0):
         bad.append((s, 'auto_claim_comments=False: ' + d))
-    f0.auto_claim_comments()
+    if walk is not None:
+        walk.run(f0, {'kind': 'layout', 'lay': lay, 'text': text, 'sig': 'parse-vs-later'})
+    else:
+        f0.auto_claim_comments()
     if commentsx.census_key(f0) != k1 or _store_sig(f0) != o1:
         bad.append(('parse-vs-later', 'parse(auto_claim_comments=True) differs from parse(False) + auto_claim_comments()'))
     # idempotent
@@ -192,8 +208,8 @@ def gen_seq_op(r, root, foreign):
     return {'k': 'auto', 'i': r.randrange(len(nodes))}
 
 
-def apply_seq_op(root, op, foreign):
-    """Returns an outcome tag."""
+def apply_seq_op(root, op, foreign, walk=None, replay=None):
+    """Returns an outcome tag.  `walk`: auto_claim_comments() calls are recorded for the lock-step with the Lean walk."""
     try:
         if op['k'] == 'mixin':
             m = _mixins(root)[op['i']]
@@ -211,7 +227,10 @@ def apply_seq_op(root, op, foreign):
             r = getattr(w, op['m'])(arg)
             return f'n{min(len(r), 3)}'
         nodes = [m for _, m in intro.walk(root) if not isinstance(m, base.RawTokenModel)]
-        nodes[op['i']].auto_claim_comments()
+        if walk is not None:
+            walk.run(nodes[op['i']], replay or {})
+        else:
+            nodes[op['i']].auto_claim_comments()
         return 'ok'
     except ValueError as e:
         return edits.exc_tag(e)
@@ -232,7 +251,7 @@ def run_sequence(text, auto, ops):
     return []
 
 
-def sequences(ctx, ndocs, nops):
+def sequences(ctx, ndocs, nops, walk=None):
     r = ctx.rng
     lay_pool = ['CDCD', 'DIMI', 'TIMIPI', 'TPMIC', 'CBCDICD', 'TIP', 'TPIPC', 'DMIC', 'TMIPIMI', 'ICD', 'TCP']
     for s in range(ndocs):
@@ -253,7 +272,7 @@ def sequences(ctx, ndocs, nops):
             op = gen_seq_op(r, root, fc)
             ops.append(op)
             before = sum(1 for t in root.token_store if isinstance(t, models.BlockComment) and t.claimed)
-            out = apply_seq_op(root, op, fc)
+            out = apply_seq_op(root, op, fc, walk, {'kind': 'sequence', 'text': text, 'auto': auto, 'ops': list(ops)})
             after = sum(1 for t in root.token_store if isinstance(t, models.BlockComment) and t.claimed)
             ctx.count(f'seq:{op["k"]}:{op.get("m", "auto_claim_comments")}:{out}')
             ctx.case(('seq', op['k'], op.get('m'), out, min(before, 4), min(after, 4), op.get('set') is not None) if before != after or out not in ('none', 'n0', 'ok') else None)
@@ -299,8 +318,15 @@ def _foreign():
     return [t for t in f.token_store if isinstance(t, models.BlockComment)][0]
 
 
-def scripted(ctx):
-    """(layout, [(receiver kind, class, k/field, method, ignore/set)]) on documents parsed WITHOUT attribution."""
+def _node_index(root, cls, k=0):
+    nodes = [m for _, m in intro.walk(root) if not isinstance(m, base.RawTokenModel)]
+    return [i for i, m in enumerate(nodes) if type(m).__name__ == cls][k]
+
+
+def scripted(ctx, walk=None):
+    """(layout, [(receiver kind, class, k/field, method, ignore/set)]) on documents parsed WITHOUT attribution.
+    Receiver kind 'a' = `auto_claim_comments()` of the k-th node of that class (recorded for the walk lock-step): the
+    scripts below leave a placeholder between a node and an unclaimed comment first, so that the walk has to move it."""
     L, T = 'claim_leading_comment', 'claim_trailing_comment'
     UL, UT = 'unclaim_leading_comment', 'unclaim_trailing_comment'
     CI, UI = 'claim_interleaving_comments', 'unclaim_interleaving_comments'
@@ -329,6 +355,26 @@ def scripted(ctx):
                    ('m', 'MetaItem', 0, T, False)]),
         ('CDCDC', [('w', 'File', 'directives_with_comments', CI, None), ('m', 'Open', 0, L, False), ('m', 'Open', 0, L, True),
                    ('w', 'File', 'directives_with_comments', UI, None), ('m', 'Open', 1, L, False), ('m', 'Open', 0, T, True)]),
+        # walks that move placeholders: the meta item takes `; c` (the postings placeholder is spliced behind the comment) and
+        # gives it back; then the whole file / the posting / the transaction / the meta item walks
+        ('TMIP', [('m', 'MetaItem', 0, T, False), ('m', 'MetaItem', 0, UT, None), ('a', 'File', 0, None, None), ('a', 'File', 0, None, None)]),
+        ('TMIP', [('m', 'MetaItem', 0, T, False), ('m', 'MetaItem', 0, UT, None), ('a', 'Posting', 0, None, None),
+                  ('a', 'Transaction', 0, None, None), ('a', 'File', 0, None, None)]),
+        ('TMIP', [('m', 'MetaItem', 0, T, False), ('m', 'MetaItem', 0, UT, None), ('a', 'MetaItem', 0, None, None),
+                  ('a', 'Repeated', 0, None, None), ('a', 'File', 0, None, None)]),
+        ('TMI', [('m', 'MetaItem', 0, T, False), ('m', 'MetaItem', 0, UT, None), ('a', 'Transaction', 0, None, None), ('a', 'File', 0, None, None)]),
+        ('TMIPIC', [('m', 'MetaItem', 0, T, False), ('m', 'MetaItem', 0, UT, None), ('m', 'Posting', 0, T, False), ('m', 'Transaction', 0, T, False),
+                    ('m', 'Posting', 0, UT, None), ('a', 'File', 0, None, None)]),
+        ('TPMI', [('m', 'MetaItem', 0, T, False), ('m', 'MetaItem', 0, UT, None), ('a', 'Posting', 0, None, None), ('a', 'File', 0, None, None)]),
+        ('DMIC', [('m', 'MetaItem', 0, T, False), ('m', 'Open', 0, T, False), ('m', 'MetaItem', 0, UT, None), ('m', 'Open', 0, UT, None),
+                  ('a', 'Open', 0, None, None), ('a', 'File', 0, None, None)]),
+        ('TIMIPIC', [('w', 'Transaction', 'meta_with_comments', CI, None), ('w', 'Transaction', 'postings_with_comments', CI, None),
+                     ('w', 'Transaction', 'meta_with_comments', UI, None), ('a', 'File', 0, None, None)]),
+        ('TIMIPIC', [('w', 'Transaction', 'postings_with_comments', CI, None), ('w', 'Transaction', 'postings_with_comments', UI, None),
+                     ('w', 'Transaction', 'meta_with_comments', CI, None), ('w', 'Transaction', 'meta_with_comments', UI, [0]),
+                     ('a', 'Transaction', 0, None, None), ('a', 'File', 0, None, None)]),
+        ('CDCDC', [('w', 'File', 'directives_with_comments', CI, None), ('w', 'File', 'directives_with_comments', UI, [1]),
+                   ('a', 'File', 0, None, None)]),
     ]
     for lay, steps in scripts:
         text = commentsx.layout_text(lay)
@@ -336,7 +382,10 @@ def scripted(ctx):
         done = []
         for kind, cls, k, meth, arg in steps:
             try:
-                if kind == 'm':
+                if kind == 'a':
+                    op = {'k': 'auto', 'i': _node_index(root, cls, k)}
+                    meth = 'auto_claim_comments'
+                elif kind == 'm':
                     op = {'k': 'mixin', 'i': _mixin_index(root, cls, k), 'm': meth}
                     if meth.startswith('claim'):
                         op['ignore'] = bool(arg)
@@ -345,8 +394,8 @@ def scripted(ctx):
             except IndexError:
                 ctx.count('scripted:stale-step')
                 continue
-            out = apply_seq_op(root, op, _foreign())
             done.append(op)
+            out = apply_seq_op(root, op, _foreign(), walk, {'kind': 'sequence', 'text': text, 'auto': False, 'ops': list(done)})
             ctx.count(f'scripted:{meth}:{out}')
             ctx.case(('scripted', lay, len(done), out))
             bad = commentsx.check_census(root)
@@ -365,7 +414,7 @@ def _fail(ctx, sig, what, replay):
 
 # ---- the check ---------------------------------------------------------------------------------------------------------
 
-def layouts(ctx, maxlen, full_upto=6):
+def layouts(ctx, maxlen, full_upto=6, walk=None):
     """Exhaustive; layouts longer than `full_upto` lines run the unclaim/claim cycles on a 1/8 sample only (budget)."""
     counts = {}
     n = 0
@@ -374,7 +423,9 @@ def layouts(ctx, maxlen, full_upto=6):
             lay = ''.join(tup)
             text = commentsx.layout_text(lay)
             n += 1
-            bad = layout_checks(text, lay, counts, cycles=(k <= full_upto or n % 8 == 0))
+            # the walk lock-step: every layout of <= 5 lines, every 3rd of 6 lines, every 24th of 7 lines (budget)
+            w = walk if (k <= 5 or (k == 6 and n % 3 == 0) or n % 24 == 0) else None
+            bad = layout_checks(text, lay, counts, cycles=(k <= full_upto or n % 8 == 0), walk=w)
             if bad is None:
                 ctx.count('layout:rejected')
                 continue
@@ -387,11 +438,11 @@ def layouts(ctx, maxlen, full_upto=6):
         ctx.count(k, v)
 
 
-def ledgers(ctx, n):
+def ledgers(ctx, n, walk=None):
     r = ctx.rng
     for _ in range(n):
         text = docs.gen_file(r, r.choice([1, 2, 3, 5, 8]))
-        bad = layout_checks(text)
+        bad = layout_checks(text, walk=walk)
         if bad is None:
             ctx.count('ledger:rejected')
             continue
@@ -429,14 +480,16 @@ def run(ctx):
     claimprobes.run_handover(ctx, ['census'])
     _copy_census(ctx)
     tr = commentsx.Tracer(limit=200, sample=1.0, rng=ctx.rng)
+    walk = commentsx.WalkRecorder(limit=ctx.scale(12000, 50000), max_tokens=ctx.scale(1500, 4000))
     with tr:
-        scripted(ctx)
+        scripted(ctx, walk=walk)
         tr.limit, tr.sample = ctx.scale(2500, 15000), ctx.scale(0.5, 0.2)
-        sequences(ctx, ctx.scale(250, 2000), ctx.scale(12, 25))
+        sequences(ctx, ctx.scale(250, 2000), ctx.scale(12, 25), walk=walk)
         tr.limit, tr.sample = ctx.scale(6000, 40000), ctx.scale(0.03, 0.01)
-        layouts(ctx, ctx.scale(5, 7))
-        ledgers(ctx, ctx.scale(300, 3000))
+        layouts(ctx, ctx.scale(5, 7), walk=walk)
+        ledgers(ctx, ctx.scale(300, 3000), walk=walk)
     tr.diff(ctx, 'comments-lockstep')
+    walk.diff(ctx, 'auto-claim-walk')
 
 
 def search(ctx, hints):
